@@ -2,6 +2,7 @@ package main
 
 import (
 	"fmt"
+	"reflect"
 	"strings"
 
 	"github.com/influxdata/influxql"
@@ -18,13 +19,57 @@ func isPasswordStmt(s influxql.Statement) bool {
 	return false
 }
 
+// topExprs: every expression held directly by a field of the statement (Walk does not descend into the condition
+// of every statement kind, e.g. SHOW MEASUREMENTS ... WHERE)
+func topExprs(st influxql.Statement) []influxql.Expr {
+	var out []influxql.Expr
+	exprT := reflect.TypeOf((*influxql.Expr)(nil)).Elem()
+	var rec func(v reflect.Value, depth int)
+	rec = func(v reflect.Value, depth int) {
+		if depth > 6 || !v.IsValid() {
+			return
+		}
+		switch v.Kind() {
+		case reflect.Interface:
+			if v.IsNil() {
+				return
+			}
+			if v.Type() == exprT {
+				out = append(out, v.Interface().(influxql.Expr))
+				return
+			}
+			rec(v.Elem(), depth+1)
+		case reflect.Ptr:
+			if !v.IsNil() && v.Type().Elem().Kind() == reflect.Struct && strings.HasPrefix(v.Type().Elem().PkgPath(), "github.com/influxdata/influxql") {
+				rec(v.Elem(), depth+1)
+			}
+		case reflect.Struct:
+			for i := 0; i < v.NumField(); i++ {
+				if v.Type().Field(i).IsExported() {
+					rec(v.Field(i), depth+1)
+				}
+			}
+		case reflect.Slice:
+			for i := 0; i < v.Len(); i++ {
+				rec(v.Index(i), depth+1)
+			}
+		}
+	}
+	rec(reflect.ValueOf(st), 0)
+	return out
+}
+
 func c02Classify(st influxql.Statement, printed string) string {
 	neg := false
-	influxql.WalkFunc(st, func(n influxql.Node) {
+	visit := func(n influxql.Node) {
 		if e, ok := n.(influxql.Expr); ok && !neg && hasNegRHS(e) {
 			neg = true
 		}
-	})
+	}
+	influxql.WalkFunc(st, visit)
+	for _, e := range topExprs(st) {
+		influxql.WalkFunc(e, visit)
+	}
 	if neg {
 		return "C02-neg-rhs"
 	}
